@@ -148,7 +148,7 @@ pub fn task_strategy(known_shapes: bool) -> BoxedStrategy<TaskCase> {
     let c = strong_cfg(known_shapes);
     prop_oneof![
         1 => (ga::program(&c), ga::program(&c), any::<bool>(), gt::choices(8)).prop_map(|(left, right, mu, choices)| TaskCase::Strong { left, right, mu, choices }),
-        1 => gt::choices(160).prop_map(|choices| TaskCase::External { choices }),
+        1 => gt::choices(161).prop_map(|choices| TaskCase::External { choices }),
     ]
     .boxed()
 }
@@ -194,9 +194,36 @@ pub fn build(case: &TaskCase, known_shapes: bool) -> Result<Built, Outcome> {
                 if !names.placeholders.iter().any(|p| p.0 == "n") {
                     names.placeholders.insert(0, ("n".into(), fol::Sort::Integer));
                 }
+                // a symbol-sorted placeholder k next to a symbolic constant k_s: one TPTP name, the same
+                // type twice (cases recorded with 160 choices predate this shape)
+                if choices.len() > 160 && c.aux(95, 4) == 0 {
+                    names.symbols = vec!["k_s".into(), "u".into()];
+                    names.placeholders.retain(|p| p.0 != "k");
+                    names.placeholders.insert(0, ("k".into(), fol::Sort::Symbol));
+                }
             }
-            let task = gt::external_task_with(&mut c, names);
+            let mut task = gt::external_task_with(&mut c, names);
             let flags = gt::flags(&mut c);
+            // (cases recorded with 160 choices predate this shape and keep their meaning)
+            if !known_shapes && choices.len() > 160 && task.left_spec.is_some() && c.aux(71, 3) == 0 {
+                // a propositional input predicate `y` that only one specification formula mentions,
+                // next to symbolic constants y, y0: `y` then occurs in some sub-problems only
+                task.user_guide.entries.insert(
+                    0,
+                    fol::UserGuideEntry::InputPredicate(fol::Predicate { symbol: "y".into(), arity: 0 }),
+                );
+                let o = task.names.outputs[0].0.clone();
+                if let Ok(f) = format!("y -> exists X ({o}(X) or not {o}(X))").parse::<fol::Formula>() {
+                    let spec = task.left_spec.as_mut().unwrap();
+                    let at = c.aux(72, spec.formulas.len() + 1);
+                    spec.formulas.insert(at, gt::annotated(fol::Role::Spec, fol::Direction::Universal, "about_y", f));
+                }
+                for s in ["y", "y0", "yA"] {
+                    if let Ok(r) = format!("{o}({s}).").parse::<asp::Rule>() {
+                        task.right.rules.push(r);
+                    }
+                }
+            }
             match ops::external_problems(&task, &ops::empty_outline(), &flags, false) {
                 Ok((problems, _)) => Ok(Built {
                     source_symbols: gt::external_source_symbols(&task),
